@@ -6,12 +6,12 @@ Local Open Scope N_scope.
 
 Definition tstate := state toydb.
 Definition tmon := mon toydb.
-Definition toy_init : tstate := init_state toydb [].
-Definition toy_step : smcfg -> tstate -> op -> tstate * out := step toy toydb toydbops.
-Definition toy_minit : tmon := minit toydb [].
-Definition toy_mstep32 : smcfg -> tmon -> op -> out -> verdict * tmon := mstep32 toy toydb toydbops.
-Definition toy_mstep33 : smcfg -> tmon -> op -> out -> verdict * tmon := mstep33 toy toydb toydbops.
-Definition toy_mstep34 : smcfg -> tmon -> op -> out -> verdict * tmon := mstep34 toy toydb toydbops.
-Definition toy_mstep35 : smcfg -> tmon -> op -> out -> verdict * tmon := mstep35 toy toydb toydbops.
+Definition toy_init : tstate := init_state ([] : toydb).
+Definition toy_step : smcfg -> tstate -> op -> tstate * out := step toy toydbops.
+Definition toy_minit : tmon := minit ([] : toydb).
+Definition toy_mstep32 : smcfg -> tmon -> op -> out -> verdict * tmon := mstep32 toy toydbops.
+Definition toy_mstep33 : smcfg -> tmon -> op -> out -> verdict * tmon := mstep33 toy toydbops.
+Definition toy_mstep34 : smcfg -> tmon -> op -> out -> verdict * tmon := mstep34 toy toydbops.
+Definition toy_mstep35 : smcfg -> tmon -> op -> out -> verdict * tmon := mstep35 toy toydbops.
 (* source-shape switch read by the translator (gen/consts/sm.py) *)
 Definition legacy_oob_switch : bool := GenSM.combined_legacy_response_oob_flag.
